@@ -2,7 +2,9 @@
 
 from __future__ import annotations
 
+import math
 import sys
+from decimal import Decimal
 from typing import TYPE_CHECKING
 from typing import Any
 from typing import Generic
@@ -218,6 +220,13 @@ class FloatLiteral(Literal[float]):
 
     def __eq__(self, other: object) -> bool:
         return isinstance(other, FloatLiteral) and self.value == other.value
+
+    def __str__(self) -> str:
+        # Float literals have no exponent notation.
+        if not math.isfinite(self.value):
+            return repr(self.value)
+        text = format(Decimal(repr(self.value)), "f")
+        return text if "." in text else f"{text}.0"
 
 
 class RangeLiteral(Expression):
